@@ -39,16 +39,15 @@ pub fn model_case(g: &mut Gen, prof: &Profile, prefix: &'static str, max_tx: u64
 }
 
 fn nontrivial(plan: &Plan, _o: Outcome3) -> bool {
-    // at least one worktop take and either a fault/leftover or a successful multi-step manifest
-    plan.cats.contains(&C_TAKE) && (plan.predicted.is_err() || plan.ins.len() >= 5)
+    plan.ins.len() >= 6 && plan.exact_take_followed
 }
 
 pub fn check() -> Check {
     Check::new(
         "C09",
         "Resources cannot vanish or be duplicated inside a transaction",
-        "1-3 generated manifests per case on the standard world (reset per case): withdraw / take (amount, ids, all, exact-balance) / return / assert (amount, ids, any) / burn / mint / recall / proofs / deposits / ENTIRE_WORKTOP, with deliberately faulty operands (too much, off-grid, stale bucket or proof ids, unknown ids) and deliberately unfinished manifests. Oracle: worktop / bucket / proof / vault model predicting success or the failure class, and the committed content of every account vault. Non-trivial = uses a worktop take and is predicted to fail or has >= 5 instructions.",
+        "1-3 generated manifests per case on the standard world (reset per case): withdraw / take (amount, ids, all, exact-balance) / return / assert (amount, ids, any) / burn / mint / recall / proofs / deposits / ENTIRE_WORKTOP, with deliberately faulty operands (too much, off-grid, stale bucket or proof ids, unknown ids) and deliberately unfinished manifests. Oracle: worktop / bucket / proof / vault model predicting success or the failure class, and the committed content of every account vault. Non-trivial = a manifest of >= 6 instructions in which an exact-balance take (the worktop's bucket is moved out) is followed by another worktop operation.",
     )
     .part(Part::new("worktop", 4000, 200_000, 600, |g| model_case(g, &Profile::worktop(), "C09", 3, nontrivial)))
-    .min_nontrivial_pct(20.0)
+    .min_nontrivial_pct(10.0)
 }
